@@ -1,5 +1,6 @@
 (* C14 — Compressed size is bounded (partial: format arithmetic). *)
-From QCo.Lemmas Require Import Tactics CodecL.
+From QCo.Lemmas Require Import Tactics CodecL FileL SizeL.
+From QCo.Model Require Import Writer.
 From QCo.Model Require Import Base Consts DType Codec.
 Open Scope N_scope.
 
@@ -15,3 +16,38 @@ Proof. exact write_varint_length_le. Qed.
 (* a stored divisor costs at most 1 + ceil(log2 range) bits *)
 Theorem C14_gcd_bits : forall range g, Nlen (write_gcd range g) <= 1 + gcd_bits range.
 Proof. exact write_gcd_length. Qed.
+
+(* the body of a chunk costs exactly the sum over its blocks of code + run-length count + offsets *)
+Theorem C14_body_bits_exact : forall ps fuel us b,
+  write_body_fuel fuel ps us = Ok b ->
+  Nlen b = nsum (map block_cost (body_blocks fuel ps us)).
+Proof. exact body_bits_exact. Qed.
+
+(* per-chunk metadata bound of the property (chunk byte included), for every data type with
+   W = the unsigned width, every flag combination the writer uses and every chunk_ok chunk *)
+Theorem C14_chunk_metadata_bound : forall d f xs table m bs,
+  chunk_ok d f (xs, table) -> chunk_payload d f table xs = Ok (m, bs) ->
+  1 + (Nlen bs - m_body m)
+  <= 12 + (ford f + 1) * ubits d / 8 + Nlen table * ((67 + 3 * ubits d) / 8 + 1).
+Proof. exact chunk_meta_bound. Qed.
+
+(* the file-level inequality of the property follows from the per-chunk body bound
+   body_bytes <= ceil(n (W+4) / 8) — which depends on the code lengths the policy chooses and is
+   the part decided by the correspondence run, not by this theorem *)
+Theorem C14_total_from_body : forall d f chunks bytes,
+  d <> DBool -> ford f <= 7 ->
+  Forall (chunk_ok d f) chunks -> file_bytes d f chunks = Ok bytes ->
+  (forall xs table m bs, In (xs, table) chunks -> chunk_payload d f table xs = Ok (m, bs) ->
+                         m_body m <= cdiv8 (Nlen xs * (wbits d + 4))) ->
+  Nlen bytes <= file_bound (wbits d) (wbits d) (ford f) chunks.
+Proof. exact total_from_body. Qed.
+
+(* what holds with no assumption on the policy: at most W + 79 bits per number *)
+Theorem C14_total_unconditional : forall d f chunks bytes,
+  ford f <= 7 ->
+  Forall (chunk_ok d f) chunks -> file_bytes d f chunks = Ok bytes ->
+  Nlen bytes <= 8 + nsum (map (chunk_bound_uncond (ubits d) (ford f)) chunks).
+Proof. exact total_unconditional. Qed.
+
+(* the property's literal bound is false for bool (W = 1) at delta order >= 1: refutation witness *)
+Example C14_bool_literal_bound_refuted := bool_literal_counterexample.
